@@ -151,7 +151,9 @@ func (r *InboundRequestSingleFlight) FinishAbandoned(req *InflightRequest) {
 	}
 	shard := r.shardFor(req.ID)
 	shard.m.Delete(req.ID)
+	verifPoint("sfi.fin.deleted", req.ID, 2)
 	close(req.Done)
+	verifPoint("sfi.fin.closed", req.ID, 2)
 }
 
 func (r *InboundRequestSingleFlight) FinishErr(req *InflightRequest, err error) {
